@@ -134,7 +134,7 @@ func (encryptor *PostgreSQLTokenizeQuery) OnBind(ctx context.Context, parseResul
 			continue
 		}
 		index := int(paramRef.GetNumber() - 1)
-		if index >= len(values) {
+		if index < 0 || index >= len(values) {
 			logrus.WithFields(logrus.Fields{"placeholder": paramRef.GetNumber(), "index": index, "values": len(values)}).
 				Warning("Invalid placeholder index")
 			return values, false, encryptor_base.ErrInvalidPlaceholder
